@@ -44,8 +44,10 @@ void UncompressedFile::read(char * s, std::streamsize n) {
     if (n + m_tellg > m_fileSize) {
         n = m_fileSize - m_tellg;
         m_rdstate = std::ios_base::eofbit | std::ios_base::failbit;
-    } else
+    } else if ((m_rdstate & (std::ios_base::failbit | std::ios_base::badbit)) == 0)
         m_rdstate = std::ios_base::goodbit;
+    /* as with iostreams, a failed state persists: a later (e.g. zero-length) read must not hide
+     * that an earlier read hit the end of the stream */
 
     /* read data */
     m_gcount = 0;
